@@ -286,8 +286,8 @@ class Engine(object):
     def _symbols(self, t):
         k = t.get_id()
         c = Engine._sym_cache.get(k)
-        if c is not None:
-            return c
+        if c is not None and c[0].eq(t):
+            return c[1]
         out = set()
         seen = set()
         st = [t]
@@ -305,7 +305,7 @@ class Engine(object):
             elif z3.is_quantifier(x):
                 st.append(x.body())
         out = frozenset(out)
-        Engine._sym_cache[k] = out
+        Engine._sym_cache[k] = (t, out)       # keeping the term alive keeps its id from being reused
         return out
 
     def _slice(self, cs, term):
